@@ -1000,7 +1000,12 @@ func callBuiltin(caller *frame, callpos token.Pos, fn *ssa.Builtin, args []value
 			return append(args[0].([]value), s.b...)
 		}
 		// append([]T, ...[]T) []T
-		return append(args[0].([]value), args[1].([]value)...)
+		// (struct and array elements are values: they must not alias the source)
+		dst := args[0].([]value)
+		for _, e := range args[1].([]value) {
+			dst = append(dst, copyVal(e))
+		}
+		return dst
 
 	case "copy": // copy([]T, []T) int or copy([]byte, string) int
 		src := args[1]
@@ -1008,7 +1013,20 @@ func callBuiltin(caller *frame, callpos token.Pos, fn *ssa.Builtin, args []value
 		case string, symString:
 			src = strBytes(s)
 		}
-		return copy(args[0].([]value), src.([]value))
+		dst, srcv := args[0].([]value), src.([]value)
+		n := len(dst)
+		if len(srcv) < n {
+			n = len(srcv)
+		}
+		if n > 0 && len(srcv) > 0 {
+			// overlapping copies behave like memmove
+			tmp := make([]value, n)
+			for i := 0; i < n; i++ {
+				tmp[i] = copyVal(srcv[i])
+			}
+			copy(dst, tmp)
+		}
+		return n
 
 	case "close": // close(chan T)
 		close(args[0].(chan value))
@@ -1573,4 +1591,23 @@ func fandbits[F floaty](x, y F) F {
 		*(*uint64)(unsafe.Pointer(&x)) &= *(*uint64)(unsafe.Pointer(&y))
 	}
 	return x
+}
+
+// copyVal returns a copy of v that shares no struct/array storage with it.
+func copyVal(v value) value {
+	switch v := v.(type) {
+	case structure:
+		c := make(structure, len(v))
+		for i, e := range v {
+			c[i] = copyVal(e)
+		}
+		return c
+	case array:
+		c := make(array, len(v))
+		for i, e := range v {
+			c[i] = copyVal(e)
+		}
+		return c
+	}
+	return v
 }
